@@ -62,6 +62,7 @@ func cmdHarness(args []string) int {
 		usage()
 	}
 	pkg, fn := args[0], args[1]
+	defer cleanupScratch()
 	fs := flag.NewFlagSet("harness", flag.ExitOnError)
 	params := paramFlag{}
 	fs.Var(params, "param", "k=v")
